@@ -219,8 +219,12 @@ class Machine:
 
     def same_state(self, got, t_us, what):
         ref = self.fresh(t_us)
+        if getattr(self, "user_changed", False) and got.frame.name != "EME2000" and self.kind != "ephem":
+            got = got.copy(frame="EME2000")
         g = cart(got)
         tol = self.state_tol()
+        if getattr(self, "user_changed", False):
+            tol = max(tol, 1e-3)  # rounding of the user's form / frame round trip, grown along-track
         if tol == 0.0:
             if not np.array_equal(g, ref):
                 d = float(np.linalg.norm(g[:3] - ref[:3]))
@@ -403,8 +407,13 @@ class Machine:
         # history independence: identical to a run on fresh objects with fresh listeners
         o = fresh_objects(self.case)
         ref = list(o.iter(listeners=[NodeListener(), ApsideListener()], **kw))
-        ref_ev = [(us_of(s.date), str(s.event)) for s in ref if s.event is not None]
-        got_ev = [(us_of(s.date), str(s.event)) for s in got if s.event is not None]
+        # (events within 5 us of a sample date are the "crossing exactly on a sample" class: the sign of
+        # an exact zero is not part of the statement, and a rounding of 1e-16 flips it)
+        def off_sample(t_):
+            return all(abs(t_ - w) > 5 for w in want)
+
+        ref_ev = [(us_of(s.date), str(s.event)) for s in ref if s.event is not None and off_sample(us_of(s.date))]
+        got_ev = [(us_of(s.date), str(s.event)) for s in got if s.event is not None and off_sample(us_of(s.date))]
         if len(ref_ev) != len(got_ev) or any(abs(a[0] - b[0]) > 2 or a[1] != b[1] for a, b in zip(ref_ev, got_ev)):
             raise Violation("listener-reuse", f"events with re-used listener objects {got_ev[:6]} differ from a fresh run {ref_ev[:6]}")
         return ["iter_listeners", f"events:{min(len(got_ev), 3)}"]
@@ -479,6 +488,23 @@ class Machine:
                                                        f"orbit holding the same numbers")
         return ["kick:" + op["variant"]]
 
+    def op_user_change(self, op):
+        """The USER re-expresses the shared orbit in place (another form, another non-rotating frame):
+        the physical state is the same, so every later propagation must still agree with the fresh
+        reference (to the rounding of the conversion), whatever the propagator cached before."""
+        if self.kind not in ("kepler", "j2", "keplernum", "none"):
+            return ["skip"]
+        if op["what"] == "form":
+            self.obj.form = op["value"]
+        else:
+            if self.kind in ("none", "j2"):  # J2's equator is the frame's own z axis
+                return ["skip"]
+            self.obj.frame = op["value"]
+        self.snap = snapshot(self.obj)
+        self.user_changed = True
+        # back to the reference frame for the comparison of later results
+        return ["user_change:" + op["what"]]
+
     def op_partial(self, op):
         start, stop, step = self._range(op)
         kw = self.iter_kwargs(op, start, stop, step)
@@ -529,11 +555,16 @@ class Machine:
 @st.composite
 def op_strategy(draw, kind, h_us, span_us):
     name = draw(st.sampled_from(["propagate", "iter_range", "iter_range", "iter_range", "iter_dates", "iter_daterange",
-                                 "ephem", "iter_listeners", "rebind", "rebind_other", "partial", "iter_own", "kick"]))
+                                 "ephem", "iter_listeners", "rebind", "rebind_other", "partial", "iter_own", "kick", "user_change"]))
 
     def t():
         return draw(go.uniform_int(-span_us, span_us)) if kind != "ephem" else draw(go.uniform_int(0, span_us))
 
+    if name == "user_change":
+        what = draw(st.sampled_from(["form", "form", "frame"]))
+        value = draw(st.sampled_from(["keplerian", "keplerian_mean", "spherical", "equinoctial", "cartesian"])) if what == "form" \
+            else draw(st.sampled_from(["GCRF", "G50", "EME2000"]))  # frames fixed with respect to each other
+        return dict(op=name, what=what, value=value)
     if name == "kick":
         return dict(op=name, t_us=t(), t2_us=t(), variant=draw(st.sampled_from(["A", "B", "C"])),
                     dv=[round(draw(go.uniform(-50, 50)), 3) for _ in range(3)])
@@ -627,7 +658,7 @@ def check(case):
     m = Machine(case)
     tags = m.run()
     kinds = {t for t in tags if t in ("propagate", "iter_range", "iter_dates", "iter_daterange", "ephem", "iter_listeners", "iter_own",
-                                       "rebind", "rebind_other", "partial_consume", "kick:A", "kick:B", "kick:C")}
+                                       "rebind", "rebind_other", "partial_consume", "kick:A", "kick:B", "kick:C", "user_change:form", "user_change:frame")}
     # an op that failed as a listed known finding and after which the history went on also counts:
     # what follows it runs on objects that have been through a failing call
     special = {"backward", "step-not-dividing", "shorter-than-interp-order", "stop-off-grid", "known-finding-op"} & set(tags)
